@@ -204,6 +204,9 @@ def t_cmp(op: str, a: Term, b: Term) -> Term:
         if a[0] == "enum" and b[0] == "enum":
             r = a == b
             return const(r if op in ("==", "is") else not r)
+        if (a[0] == "enum" and b == NONE) or (a == NONE and b[0] == "enum"):
+            # a member of an enumeration is not None
+            return const(op in ("!=", "isnot"))
         if a == b:
             return const(op in ("==", "is"))
         # numeric equality  a == b  ->  a-b == 0 when both affine with atoms
@@ -1577,6 +1580,25 @@ class Evaluator:
                     a = args[0]
                     if a[0] in ("list", "tuple"):
                         return (t_or if n == "any" else t_and)(*a[1])
+                    if a[0] == "comp" and len(a[3]) == 1:
+                        # a quantifier over a display of known length (a literal table) is the disjunction / conjunction of its instances
+                        dom = _plain_display(a[3][0][0])
+                        if dom[0] in ("list", "tuple") and 0 < len(dom[1]) <= 16 and not any(x[0] == "star" for x in dom[1]):
+                            label = show(a[3][0][0])
+                            bs = subterms((a[2],) + tuple(a[3][0][1]), lambda y: y[0] == "bound" and y[-1] == label)
+                            if len(bs) <= 1:
+                                insts = []
+                                for item in dom[1]:
+                                    mp_ = {}
+                                    if bs:
+                                        mp_[bs[0]] = item
+                                        if item[0] in ("tuple", "list"):
+                                            for k_, x_ in enumerate(item[1]):
+                                                mp_[("item", bs[0], k_)] = x_
+                                    body = t_and(*[subst(c_, mp_) for c_ in a[3][0][1]], subst(a[2], mp_)) if n == "any" else \
+                                        t_or(t_not(t_and(*[subst(c_, mp_) for c_ in a[3][0][1]])) if a[3][0][1] else FALSE, subst(a[2], mp_))
+                                    insts.append(body)
+                                return (t_or if n == "any" else t_and)(*insts)
                     return ("quant", n, a)
                 return ("call", n, tuple(args), tuple(kwargs))
             if isinstance(tgt, ClassInfo):
@@ -1588,6 +1610,21 @@ class Evaluator:
         if isinstance(e.func, ast.Attribute):
             base = self.expr(e.func.value, fr)
             name = e.func.attr
+            if base[0] == "new" and name in dict(base[2]) and not any(a[0] == "star" for a in args):
+                # a callable stored in a field of a record built right here (NamedTuple / dataclass of functions): calling the field calls that callable
+                held = dict(base[2])[name]
+                if held[0] == "fn":
+                    cands = [x for x in self.model.all_functions() if x.qualname == held[1]]
+                    if len(cands) == 1 and cands[0].kind in ("function", "staticmethod"):
+                        return self.call_function(cands[0], None, None, args, kwargs, fr)
+                if held[0] == "cls":
+                    c_ = self.model.maybe_cls(held[1])
+                    if c_ is not None:
+                        return self.construct(c_, args, kwargs, fr)
+                if held[0] in ("lambda",) and args and not kwargs:
+                    got = self.apply_callable(held, args[0], fr, tuple(args[1:]))
+                    if got is not None:
+                        return got
             if base[0] == "cls":
                 c = self.model.maybe_cls(base[1])
                 if c is not None:
